@@ -9,6 +9,7 @@ number (no solver work).  The classes mimic the part of the datetime API the cod
 raise the exceptions the real classes raise (ValueError for invalid dates, TypeError for mixed ops).
 """
 import datetime as _real
+_Y_PADDED = len(_real.datetime(1, 1, 1).strftime('%Y')) == 4
 
 import z3
 
@@ -464,10 +465,42 @@ class sdatetime:
         return 'sdatetime(o=%r, s=%r)' % (self._o if self._o is not None else (self._y, self._m, self._d), self._s)
 
     def __format__(self, spec):
-        raise NotImplementedError('symdate: strftime-style formatting')
+        if spec == '':
+            return str(self)
+        return self.strftime(spec)
 
     def strftime(self, fmt):
-        raise NotImplementedError('symdate: strftime')
+        """%Y %m %d %H %M %S %y %% only.  Every field is rendered through format(v, '0Nd') (so the digit-placeholder hook applies);
+        %Y follows the C library of this platform, which (glibc) does not zero-pad years below 1000 -- probed, not assumed."""
+        out = ''
+        i = 0
+        while i < len(fmt):
+            c = fmt[i]
+            if c != '%':
+                out += c
+                i += 1
+                continue
+            d = fmt[i + 1:i + 2]
+            i += 2
+            if d == '%':
+                out += '%'
+            elif d == 'Y':
+                y = self.year
+                if _Y_PADDED or y >= 1000:
+                    out += format(y, '04d')
+                elif y >= 100:
+                    out += format(y, '03d')
+                elif y >= 10:
+                    out += format(y, '02d')
+                else:
+                    out += format(y, '01d')
+            elif d == 'y':
+                out += format(self.year % 100, '02d')
+            elif d in 'mdHMS':
+                out += format({'m': self.month, 'd': self.day, 'H': self.hour, 'M': self.minute, 'S': self.second}[d], '02d')
+            else:
+                raise NotImplementedError('symdate: strftime directive %%%s' % d)
+        return out
 
     @classmethod
     def now(cls, tz=None):
